@@ -22,7 +22,7 @@ EXPLANATION = (
 )
 RULE_TEXT = "instances = constructor stores, validity conjuncts, (function, parameter) purity pairs, guards, record keys; non-trivial = an obligation was evaluated; distinct by (rule, construct)"
 ASSUMPTIONS = [
-    "declined: MMD symmetry/non-negativity/zero-on-self, NLL >= entropy, exact preservation of proportions (numeric laws)",
+    "declined: MMD non-negativity/zero-on-self (symmetry is decided structurally: union basis, d^T K d with K = k(basis, basis)), NLL >= entropy, exact preservation of proportions (numeric laws)",
     "effect-analysis assumptions of C20 apply to D2",
 ]
 
@@ -191,6 +191,83 @@ def check_symmetry(ctx):
     ctx.check(ok, R3, fi.key, "return expression is invariant under swapping the two distributions (modulo commutativity of +)", f"the symmetrised divergence {short(expr)} is not invariant under swapping its two distribution arguments", fi)
 
 
+R3M = "C17-D3m mmd-structure"
+
+
+def _union_of(e: ast.AST, a: str, b: str, d: Defs) -> Optional[bool]:
+    """True if e denotes the union of key collections a and b (symmetric in them), False if it
+    recognisably is not (one side missing, vacuous filter), None if unrecognised."""
+    t = norm(e)
+    forms = set()
+    for x, y in ((a, b), (b, a)):
+        forms |= {f"set({x}).union({y})", f"set({x}) | set({y})", f"set({x}).union(set({y}))", f"{{*{x}, *{y}}}", f"sorted(set({x}) | set({y}))", f"sorted(set({x}).union({y}))",
+                  f"list(dict.fromkeys([*{x}, *{y}]))", f"list({x}) + [key for key in {y} if key not in {x}]", f"[*{x}, *[key for key in {y} if key not in {x}]]", f"set({x}) | {y}", f"{x} | {y}"}
+    if t in forms:
+        return True
+    names = {n for n in (a, b) if n in {x.id for x in ast.walk(e) if isinstance(x, ast.Name)}}
+    for c in ast.walk(e):
+        if isinstance(c, (ast.ListComp, ast.GeneratorExp, ast.SetComp)):
+            for g in c.generators:
+                for cond in g.ifs:
+                    inner = cond.operand if isinstance(cond, ast.UnaryOp) and isinstance(cond.op, ast.Not) else cond
+                    if isinstance(inner, ast.Compare) and len(inner.ops) == 1 and isinstance(inner.ops[0], (ast.In, ast.NotIn)) and norm(inner.left) == norm(g.target) and norm(inner.comparators[0]) == norm(g.iter):
+                        return False  # `x for x in S if x not in S` selects nothing / everything: the filter is vacuous
+    if len(names) < 2:
+        return False
+    return None
+
+
+def check_mmd(ctx):
+    repo = ctx.repo
+    fi = repo.func("distributions.mmd:compute_mmd")
+    ctx.analysed(fi)
+    ta, me = positional_params(fi.node)[:2]
+    d = Defs(fi.node)
+
+    def expand(e, hops=3):
+        while isinstance(e, ast.Name) and hops > 0:
+            ds = [x for x in d.defs.get(e.id, []) if isinstance(x, ast.AST)]
+            if len(ds) != 1:
+                break
+            e, hops = ds[0], hops - 1
+        return e
+
+    key_names = {}
+    for nm, vs in d.defs.items():
+        for v in vs:
+            if isinstance(v, ast.AST) and norm(v) in (f"{ta}.distribution_dict.keys()", f"{ta}.distribution_dict", f"list({ta}.distribution_dict)", f"list({ta}.distribution_dict.keys())"):
+                key_names["target"] = nm
+            if isinstance(v, ast.AST) and norm(v) in (f"{me}.distribution_dict.keys()", f"{me}.distribution_dict", f"list({me}.distribution_dict)", f"list({me}.distribution_dict.keys())"):
+                key_names["measured"] = nm
+    loops = [l for l in fi.node.body if isinstance(l, ast.For)]
+    if len(key_names) != 2 or len(loops) != 1:
+        ctx.undecided(R3M, fi.key + ":basis", "cannot find the two key collections and the loop over their union", fi)
+        return
+    basis_name = norm(loops[0].iter)
+    basis_def = expand(loops[0].iter)
+    u = _union_of(basis_def, key_names["target"], key_names["measured"], d)
+    if u is None:
+        ctx.undecided(R3M, fi.key + ":basis", f"cannot classify the outcome basis {short(basis_def)}", fi)
+    else:
+        ctx.check(u, R3M, fi.key + ":basis", "the outcome basis is the union of both supports", f"the outcome basis {short(basis_def)} is not the union of the two supports (an outcome present in only one distribution is dropped): the distance then depends on the argument order", f"{fi.module.relpath}:{getattr(basis_def, 'lineno', fi.node.lineno)}")
+    k = norm(loops[0].target)
+    apps = {norm(c.func.value): norm(c.args[0]) for c in ast.walk(loops[0]) if isinstance(c, ast.Call) and isinstance(c.func, ast.Attribute) and c.func.attr == "append" and c.args}
+    want = {f"{ta}.distribution_dict.get({k}, 0)", f"{me}.distribution_dict.get({k}, 0)"}
+    ctx.check(set(apps.values()) == want and len(apps) == 2, R3M, fi.key + ":vectors", "both probability vectors are read over the same basis with 0 for absent outcomes", f"the two probability vectors are filled with {sorted(apps.values())}: each must be its own distribution's value (0 if absent) for every basis outcome", fi)
+    vec_of = {v: nm for nm, v in apps.items()}
+    tv, mv = vec_of.get(f"{ta}.distribution_dict.get({k}, 0)"), vec_of.get(f"{me}.distribution_dict.get({k}, 0)")
+    bas = [v for nm, vs in d.defs.items() for v in vs if isinstance(v, ast.Call) and (dotted(v.func) or "").endswith("asarray") and v.args and isinstance(v.args[0], ast.ListComp)]
+    ok = len(bas) == 1 and norm(bas[0].args[0].generators[0].iter) == basis_name and not bas[0].args[0].generators[0].ifs
+    ctx.check(ok, R3M, fi.key + ":kernel-points", "kernel points enumerate the same basis in the same order", "the kernel points are not computed from the same outcome basis (in the same iteration order) as the probability vectors", fi)
+    kcalls = [c for c in body_walk(fi.node) if isinstance(c, ast.Call) and dotted(c.func) in ("compute_rbf_kernel", "compute_multi_rbf_kernel")]
+    ok = len(kcalls) == 2 and all(len(c.args) == 3 and norm(c.args[0]) == norm(c.args[1]) for c in kcalls)
+    ctx.check(ok, R3M, fi.key + ":kernel-args", "kernel evaluated on (basis, basis): symmetric Gram matrix", "the kernel matrix is not evaluated between the basis and itself", fi)
+    diffs = [v for nm, vs in d.defs.items() for v in vs if isinstance(v, ast.BinOp) and isinstance(v.op, ast.Sub) and tv and mv and {norm(v.left), norm(v.right)} == {f"np.array({tv})", f"np.array({mv})"}]
+    rets = returned_exprs(fi.node)
+    ok = len(diffs) == 1 and len(rets) == 1 and norm(rets[0]) in ("diff.dot(kernel_matrix.dot(diff))", "diff @ kernel_matrix @ diff", "diff.dot(kernel_matrix).dot(diff)", "diff @ (kernel_matrix @ diff)")
+    ctx.check(ok, R3M, fi.key + ":quadratic-form", "MMD = d^T K d with d the difference of the two vectors", "the result is not the quadratic form of the difference vector with the kernel matrix (sign-symmetric in the two distributions)", fi)
+
+
 def _commutative_normal(e: ast.AST):
     """Nested tuple normal form: + and * flattened and sorted."""
     if isinstance(e, ast.BinOp) and isinstance(e.op, (ast.Add, ast.Mult)):
@@ -276,6 +353,8 @@ def run(ctx):
     check_constructor(ctx)
     check_purity(ctx)
     check_symmetry(ctx)
+    check_mmd(ctx)
+    ctx.floor("C17-D3m", 5)
     check_subdistribution(ctx)
     legacy = {("bitstring_distribution",): "legacy key of files written by older versions; read first, never written"}
     check_pair(ctx, R5, "outcome-distribution", f"{MOD}:save_measurement_outcome_distribution", f"{MOD}:load_measurement_outcome_distribution", None, allow_unwritten=legacy)
